@@ -502,3 +502,49 @@ def noise_free_simulation_zero_residual(mask, kernel, image, sky, normalize_psf,
     if not close(data, want, scale=scale):
         return "simulated data != direct-sum convolution of the generating image on the mask: %r vs %r" % (data, want)
     return None
+
+
+# ----------------------------------------------------------------------------------------------- one convolver, many inputs
+
+@bounded("C03", "one-convolver-many-inputs", gen=_gen_matrix("signed"), nontrivial=lambda mask, kernel, matrix: matrix.shape[0] >= 2)
+@guarded
+def one_convolver_many_inputs(mask, kernel, matrix):
+    """C03: 'Blurring a masked image ... returns at every unmasked pixel exactly the value of the full two-dimensional
+    convolution ... Blurring a mapping matrix equals applying that same linear operator to each column, for every real-valued
+    matrix' -- for every input, whatever the SAME Convolver blurred before: one Convolver is given, one after the other, a
+    matrix, its column-reversed and row-rolled versions, a matrix with the same row sums and total, then the first again; and
+    images (unmasked part = a column, blurring part = that column's mean with alternating sign so that it sums to zero) in the
+    same way.  Every result against the full convolution of THAT input; bound: as convolve-mapping-matrix-signed."""
+    import autoarray as aa
+    mk, kn = _lib_objects(aa, mask, kernel)
+    conv = aa.Convolver(mask=mk, kernel=kn)
+    mats = [matrix, matrix[:, ::-1].copy(), np.roll(matrix, 1, axis=0)]
+    if matrix.shape[1] >= 2:
+        t = matrix.copy()
+        t[:, 0], t[:, 1] = matrix[:, 0] + 0.25, matrix[:, 1] - 0.25
+        mats.append(t)
+    mats.append(matrix)
+    for k, M in enumerate(mats):
+        got = np.asarray(conv.convolve_mapping_matrix(mapping_matrix=M.copy()))
+        want = np.zeros(M.shape)
+        for c in range(M.shape[1]):
+            native = np.zeros(mask.shape)
+            native[~mask] = M[:, c]
+            want[:, c] = conv_full(native, kernel)[~mask]
+        if not close(got, want):
+            return "call %d of convolve_mapping_matrix on one Convolver != operator applied to THIS matrix (max err %.3g)" % (k + 1, maxerr(got, want))
+    breg = blurring_region(mask, kernel.shape)
+    bmk = aa.Mask2D(mask=~breg, pixel_scales=1.0)
+    nb = int(breg.sum())
+    cols = [mats[0][:, 0], mats[2][:, 0], mats[0][::-1, 0].copy(), mats[0][:, 0]]
+    for k, col in enumerate(cols):
+        native = np.zeros(mask.shape)
+        native[~mask] = col
+        if nb:
+            native[breg] = (1.0 + abs(float(col.mean()))) * np.array([(-1.0) ** (i + k) for i in range(nb)])
+        got = np.asarray(conv.convolve_image(image=aa.Array2D(values=native.copy(), mask=mk),
+                                             blurring_image=aa.Array2D(values=native.copy(), mask=bmk)).slim, dtype=float)
+        want = conv_full(native, kernel)[~mask]
+        if not close(got, want):
+            return "call %d of convolve_image on one Convolver != full convolution of THIS image: got %r want %r" % (k + 1, got, want)
+    return None
